@@ -534,3 +534,54 @@ def t5_snapshot(k: int) -> bool:
         if not ok:
             _say([1, 2, 3][ci], PATTERNS[pat], FSETS[fs], delays, fail, msg)
         return ok
+
+
+# =========================================================================== T4r: restore under completion orders / latencies
+def restore_case(conc, di, fs, enc):
+    """snapshot once (sequentially), then restore with `conc` loader slots and a latency pattern: identical tree, slots
+    restored, in-flight transfers <= conc."""
+    from vt.harness.gc import users, fresh_repo
+    rt.determinism(43)
+    delays = [[0], [0, 1], [2, 0, 1], [0, 3, 0, 1], [1, 1, 0], [3, 2, 1, 0]][di]
+    with world.scratch('c09r') as d:
+        src = d / 'src'
+        src.mkdir()
+        want = {}
+        for i, n in enumerate(FSETS[fs] + [21, 21]):
+            p = src / f'f{i}.bin'
+            p.write_bytes(world.content(1 if i >= len(FSETS[fs]) else 0, i, n))      # the two extra files share content (shared chunks)
+            want[str(p.resolve())] = p.read_bytes()
+        U = users(bool(enc))
+        be = rt.MemBackend({'config': U.config})
+        rt.MiniLoop().run_until_complete(fresh_repo(U, 'A', be, concurrent=1).snapshot(paths=[src]))
+        be.delays = delays
+        repo = fresh_repo(U, 'A', be, concurrent=conc)
+        before = be.max_inflight = 0
+        try:
+            res = rt.MiniLoop().run_until_complete(repo.restore(path=d / 'out'))
+        except Exception as e:
+            return False, f'restore raised {e!r}'
+        got = {'/' + k: v[0] for k, v in world.tree_state(d / 'out').items()}
+        if got != want:
+            return False, 'restored tree differs under latencies ' + str(delays)
+        if sorted(res.files) != sorted(want):
+            return False, 'restore reports a different file list'
+        if be.max_inflight > conc:
+            return False, f'{be.max_inflight} downloads in flight with concurrency {conc}'
+        if repo._slots.qsize() != conc:
+            return False, f'{repo._slots.qsize()} slots free after restore, expected {conc}'
+        return True, ''
+
+
+def t4_restore(k: int) -> bool:
+    """
+    pre: 0 <= k < 3 * 6 * 5 * 2
+    post: _
+    """
+    ci, di, fs, enc = digits(k, [3, 6, 5, 2])
+    with NoTracing():
+        ok, msg = restore_case([1, 2, 4][ci], di, fs, enc)
+        tick('t4r', [[1, 2, 4][ci], di, FSETS[fs], enc])
+        if not ok:
+            _say(msg)
+        return ok
